@@ -130,11 +130,22 @@ def gen(rng: random.Random, k: int, tier: str) -> dict:
     cwd = "root"
     for _ in range(cfg["len"]):
         complete = [d for d, s in disk.items() if s == "complete"]
-        w = {"export": 4.0, "import": 5.0 if complete else (1.0 if disk else 0.0), "chdir": 1.2, "move": 0.5 if disk else 0.0,
+        w = {"export": 4.0, "import": 5.0 if complete else (1.0 if disk else 0.0), "editws": 0.8 if disk else 0.0, "chdir": 1.2, "move": 0.5 if disk else 0.0,
              "rmtree": 0.4 if disk else 0.0, "clear_cache": 0.3, "restart": cfg["restart_w"],
              "torn_file": 1.5 * cfg["fault_rate"] if disk else 0.0, "missing_file": 1.0 * cfg["fault_rate"] if disk else 0.0}
         kinds = list(w)
         kind = rng.choices(kinds, weights=[w[x] for x in kinds])[0]
+        if kind == "editws":
+            wi = rng.randrange(nws)
+            ops.append({"op": "editws", "ws": wi, "what": rng.choice(["obs_replace", "obs_replace", "obs_elementwise", "yields", "both"]), "seed": rng.randrange(1 << 30)})
+            # ... and exports the same object again straight away, more often than not
+            if rng.random() < 0.7:
+                d = rng.choice(sorted(disk)) if rng.random() < 0.5 else rng.randrange(NDIR)
+                ops.append({"op": "export", "ws": wi, "dir": d, "how": "lib", "pathstyle": rng.choice(["abs", "rel"]), "prefix": rng.choice(["FitConfig", "cfg"]),
+                            "specroot": rng.choice(["config", "xml"]), "dataroot": rng.choice(["data", "hists"])})
+                disk[d] = "complete"
+                complete = sorted(x for x in disk if disk[x] == "complete")
+            continue
         if kind == "export":
             # bias towards re-using a directory (that is where caches and leftovers bite)
             d = rng.choice(sorted(disk)) if disk and rng.random() < 0.6 else rng.randrange(NDIR)
@@ -284,6 +295,30 @@ class World:
         self.ws[op["id"]] = copy.deepcopy(op["ws"])
         return core.short(core.canon(op["ws"]), 10)
 
+    def op_editws(self, op):
+        """The user edits a workspace they hold, in place (new observed counts, rescaled yields), between two
+        exports of the same object.  Exports made earlier keep their meaning; later ones must write the edited content."""
+        ws = self.ws.get(op["ws"])
+        if ws is None:
+            return "noop"
+        r = random.Random(op["seed"])
+        what = op["what"]
+        if what in ("obs_replace", "both"):
+            for o in ws["observations"]:
+                o["data"] = [float(r.randint(0, 150)) for _ in o["data"]]          # a new list object
+        if what in ("obs_elementwise",):
+            for o in ws["observations"]:
+                for i in range(len(o["data"])):
+                    o["data"][i] = float(r.randint(0, 150))
+        if what in ("yields", "both"):
+            for c in ws["channels"]:
+                for smp in c["samples"]:
+                    f = r.choice([0.5, 1.5, 2.0])
+                    if all(m["type"] not in ("shapesys", "staterror", "histosys") for m in smp["modifiers"]):
+                        smp["data"] = [round(v * f, 3) for v in smp["data"]]
+        self.ctx.fault("edit_workspace_in_place")
+        return what
+
     def op_restart(self, op):
         self._restart()
         self.cached_dirs = set()
@@ -390,7 +425,7 @@ class World:
         cwd = os.getcwd()
         outdir = dabs if op["pathstyle"] == "abs" else os.path.relpath(dabs, cwd)
         prev = self.disk.get(d)
-        st = {"state": "torn", "ws": op["ws"], "cwd": cwd, "prefix": op["prefix"], "specroot": op["specroot"],
+        st = {"state": "torn", "ws": op["ws"], "snap": copy.deepcopy(ws), "cwd": cwd, "prefix": op["prefix"], "specroot": op["specroot"],
               "dataroot": op["dataroot"], "pathstyle": op["pathstyle"], "origin": dabs, "outdir_as_given": outdir, "export_cwd": cwd,
               "nexports": (prev["nexports"] + 1) if prev else 1, "faulted": bool(prev and prev.get("faulted")),
               "chdir_since": False, "moved": False, "loc": d}
@@ -526,7 +561,7 @@ class World:
             ctx.fail("roundtrip", dict(sig, what="import_raises", exc=type(exc).__name__),
                      f"import of completely exported directory d{d} raised {type(exc).__name__}: {str(exc)[:300]} (how={how}, tags={tags}, style={st['pathstyle']})")
             return "raised"
-        res = self._compare(self.ws[st["ws"]], parsed, op["pt"], tags, how)
+        res = self._compare(st["snap"], parsed, op["pt"], tags, how)   # what was exported, as it was at that moment
         if op.get("scribble"):
             # what a user may do with the workspace they were handed: edit it in place.  A later import of the same
             # (unchanged) files must still return what the files contain.
